@@ -104,10 +104,18 @@ def r4(ctx, rid):
         root = prog.fns[f.id].root
         key = 'newest-blob-first|%s' % root
         bad = []
-        its = [c for c in f.calls if 'HierarchicalFilters' in c.path and c.name.startswith('iter') and c.bb in f.reachable()]
+        # the walk over the closed blobs may be a helper of the same file (`latest_entry_among_closed_blobs`): look into it
+        bodies = [f]
+        for c in f.calls:
+            if c.bb in f.reachable() and c.name != 'poll':
+                for t in prog.resolve(c):
+                    g = prog.body_of(t) if t in prog.fns else None
+                    if g is not None and g.file == f.file and g.id != f.id and g not in bodies and any('HierarchicalFilters' in x.path and x.name.startswith('iter') for x in g.calls):
+                        bodies.append(g)
+        its = [c for g in bodies for c in g.calls if 'HierarchicalFilters' in c.path and c.name.startswith('iter') and c.bb in g.reachable()]
         if not its or not all(c.name == 'iter_possible_childs_rev' for c in its):
             bad.append('the closed blobs are not walked with iter_possible_childs_rev (newest first): %s' % [c.name for c in its])
-        colls = [c for c in f.calls if c.name == 'collect' and c.bb in f.reachable()]
+        colls = [c for g in bodies for c in g.calls if c.name == 'collect' and c.bb in g.reachable()]
         if any('FuturesUnordered' in c.full for c in colls) or not any('FuturesOrdered' in c.full for c in colls):
             bad.append('the per-blob lookups are not collected into an order-preserving FuturesOrdered')
         # the merge with the active blob's result precedes the loop over the closed blobs
